@@ -49,6 +49,9 @@ RULE = ("A-cases: decorator configurations api in {attr.s, define, frozen} x aut
         "an eq_key; all "
         "instances over {0,1,2}^k, all ordered pairs.  H-cases: the same classes, fixed histories (repeat, copy, "
         "deepcopy, pickle, evolve, assignment, fresh equal instance) and seeded random histories up to length 9. "
+        "P-cases: the same classes with an __attrs_post_init__ that runs a program of hash(self) / object.__setattr__ "
+        "of a field (hash-then-assign, assign only, assign-then-hash, ...) followed by hash / copy / deepcopy / pickle / "
+        "assignment histories; observed: whether construction raised, every hash as for H-cases. "
         "distinct = distinct (kind, input); non-trivial = A: not the all-default configuration; M: at least two "
         "instances; H: at least one hash() and one other operation")
 EXTRA_TRUSTED = [
@@ -196,6 +199,63 @@ def _norm_test(make):
     return None
 
 
+INIT_TAIL_READ = [None]
+
+
+def _init_tail_events(make):
+    """The order in which _attrs_to_init_script emits the call of __attrs_post_init__ and the initialisation
+    of the hash cache field: list of "TPost"/"TCache" in emission order, or None when the shape is not the
+    straight-line `lines.append(...)` sequence (possibly under plain `if`s) this reader understands."""
+    fns = _module_functions(make)
+    fn = fns.get("_attrs_to_init_script")
+    if fn is None:
+        return None
+
+    def kind(arg):
+        src = ast.unparse(arg)
+        if "__attrs_post_init__" in src:
+            return "TPost"
+        if (isinstance(arg, ast.Name) and arg.id == "init_hash_cache") or "_HASH_CACHE_FIELD" in src \
+                or "_attrs_cached_hash" in src:
+            return "TCache"
+        return None
+
+    events = []
+
+    def visit(stmts, in_loop):
+        for st in stmts:
+            if isinstance(st, (ast.For, ast.While, ast.FunctionDef, ast.With, ast.Try)):
+                sub = [n for n in ast.walk(st) if isinstance(n, ast.Call)]
+                if any(kind(a_) for c in sub for a_ in c.args):
+                    raise _Untranslatable()
+                continue
+            if isinstance(st, ast.If):
+                visit(st.body, in_loop)
+                visit(st.orelse, in_loop)
+                continue
+            calls = [n for n in ast.walk(st) if isinstance(n, ast.Call)]
+            for c in calls:
+                ks = [kind(a_) for a_ in c.args]
+                if any(ks):
+                    if not (isinstance(c.func, ast.Attribute) and c.func.attr == "append"
+                            and _is_name(c.func.value, "lines") and len(c.args) == 1 and isinstance(st, ast.Expr)
+                            and st.value is c):
+                        raise _Untranslatable()
+                    events.append(ks[0])
+
+    try:
+        visit(fn.body, False)
+    except _Untranslatable:
+        return None
+    if events.count("TPost") != 1 or "TCache" not in events:
+        return None
+    return events
+
+
+class _Untranslatable(Exception):
+    pass
+
+
 KEY_TESTS_READ = [None]   # what the last pre_build() read (for the evidence)
 
 
@@ -213,7 +273,19 @@ def _key_test_lines(make):
             "Definition src_key_tests_read : option ktests := %s."
             % ("Some (KT %s %s %s)" % tests if ok else "None"),
             "Definition src_key_tests : ktests :=",
-            "  match src_key_tests_read with Some t => t | None => KT KIsNotNone KIsNotNone KIsNotNone end."]
+            "  match src_key_tests_read with Some t => t | None => KT KIsNotNone KIsNotNone KIsNotNone end."] \
+        + _init_tail_lines(make)
+
+
+def _init_tail_lines(make):
+    ev = _init_tail_events(make)
+    INIT_TAIL_READ[0] = ev
+    return ["(* order in which the generated __init__ calls __attrs_post_init__ and initialises the hash cache;",
+            "   None = shape not recognised (tie unavailable; the model then uses the order the property needs) *)",
+            "Definition src_init_tail_read : option (list tail_ev) := %s."
+            % ("Some [%s]" % "; ".join(ev) if ev else "None"),
+            "Definition src_init_tail : list tail_ev :=",
+            "  match src_init_tail_read with Some t => t | None => [TPost; TCache] end."]
 
 
 def pre_build():
@@ -737,17 +809,45 @@ def _syn_module():
 SYNB = "verif_c04_synb"
 
 
-def build_B(cd):
+_POST = {"prog": [], "trace": [], "lab": None}
+
+
+def _attrs_post_init(self):
+    """the __attrs_post_init__ of P-case classes: runs the program in _POST["prog"] on the half-built instance
+    (("hash",) = hash(self); ("set", n, v) = object.__setattr__(self, "f<n>", value)) and records what happened"""
+    for o in _POST["prog"]:
+        if o[0] == "hash":
+            LOG.clear()
+            _LOGGING[0] = True
+            try:
+                r = hash(self)
+            except Exception as e:
+                _POST["trace"].append(["raised", type(e).__name__])
+                raise
+            finally:
+                _LOGGING[0] = False
+            ev = list(LOG)
+            LOG.clear()
+            _POST["trace"].append(["val", _POST["lab"](r), sorted(t for k, t in ev if k == "h"),
+                                   sorted(t for k, t in ev if k == "k")])
+        else:
+            object.__setattr__(self, "f%d" % o[1], V(o[2], o[1]))
+            _POST["trace"].append(["done"])
+
+
+def build_B(cd, post_init=False):
     # a FRESH module object per class description: attrs copies the defining module's namespace into the
     # globals of every generated method, so one ever-growing module would cost quadratic memory
     mod = types.ModuleType(SYNB)
     sys.modules[SYNB] = mod
     fields = cd["fields"]
 
-    def mk(name, parent, idxs, own_eq=False, **kw):
+    def mk(name, parent, idxs, own_eq=False, leaf=False, **kw):
         ns = {"__module__": SYNB}
         if own_eq:
             ns["__eq__"] = _user_eq
+        if leaf and post_init:
+            ns["__attrs_post_init__"] = _attrs_post_init
         ann = {}
         for i in idxs:
             h, e = fields[i]
@@ -781,7 +881,7 @@ def build_B(cd):
         kw["eq"] = False
     elif ceq == "own":    # own __eq__ auto-detected: no __eq__ generated
         kw["auto_detect"] = True
-    return mk("Q%d" % next(_serial), parent, range(cd["split"], k), own_eq=(ceq == "own"), **kw)
+    return mk("Q%d" % next(_serial), parent, range(cd["split"], k), own_eq=(ceq == "own"), leaf=True, **kw)
 
 
 def enc_cls(cd):
@@ -832,8 +932,30 @@ def mk_M(cd, vecs):
 def run_H(cd, start, ops):
     cls = build_B(cd)
     cur = _inst(cls, start)
+    return _apply_ops(cls, cur, ops, _Labels(), [])
+
+
+def run_P(cd, start, post, ops):
+    """construction with a post-init program, then a history (no evolve / fresh: they would construct again)"""
+    cls = build_B(cd, post_init=True)
     lab = _Labels()
-    seen = []
+    _POST["prog"], _POST["trace"], _POST["lab"] = list(post), [], lab
+    try:
+        try:
+            cur = _inst(cls, start)
+        except Exception as e:
+            seen = list(_POST["trace"])
+            if not seen or seen[-1][0] != "raised":
+                seen.append(["raised", type(e).__name__])
+            return seen
+        seen = list(_POST["trace"])
+        _POST["prog"] = []          # copy / pickle do not run __init__, but be safe
+        return _apply_ops(cls, cur, ops, lab, seen)
+    finally:
+        _POST["prog"], _POST["trace"], _POST["lab"] = [], [], None
+
+
+def _apply_ops(cls, cur, ops, lab, seen):
     for o in ops:
         try:
             if o[0] == "hash":
@@ -899,6 +1021,48 @@ def mk_H(cd, start, ops):
     nt = any(o[0] == "hash" for o in ops) and any(o[0] != "hash" for o in ops)
     return Case(term, inp, seen, sig={"case": "H"}, nontrivial=nt,
                 key="H" + repr((sorted(cd.items()), start, ops)))
+
+
+def mk_P(cd, start, post, ops):
+    try:
+        seen = run_P(cd, start, post, ops)
+    except Exception as e:
+        seen = [["raised", "%s: %s" % (type(e).__name__, e)]]
+    term = "(CP %s %s %s %s %s)" % (enc_cls(cd), lst(str(v) for v in start), lst(enc_op(o) for o in post),
+                                    lst(enc_op(o) for o in ops), lst(enc_hobs(s) for s in seen))
+    inp = {"t": "P", "cd": cd, "start": list(start), "post": [list(o) for o in post], "ops": [list(o) for o in ops]}
+    return Case(term, inp, seen, sig={"case": "P"}, nontrivial=bool(post),
+                key="P" + repr((sorted(cd.items()), start, post, ops)))
+
+
+def _post_cases(cd, start, rng, n):
+    """post-init programs x follow-up histories for one class"""
+    k = len(start)
+    i = rng.randrange(k)
+    other = (start[i] + 1) % 3
+    posts = [
+        [("hash",), ("set", i, other)],                       # hash self, then fill in a field
+        [("set", i, other)],                                   # derived field only
+        [("set", i, other), ("hash",)],
+        [("hash",)],
+        [("hash",), ("set", i, other), ("hash",), ("set", rng.randrange(k), rng.randrange(3))],
+        [],
+    ]
+    follow = [
+        [("hash",), ("deep",), ("hash",)],
+        [("hash",), ("hash",), ("copy",), ("hash",), ("pickle", rng.choice((2, 3, 4, 5))), ("hash",)],
+        [("deep",), ("hash",)],
+        [("hash",), ("set", i, (other + 1) % 3), ("hash",), ("deep",), ("hash",)],
+        [("hash",)],
+    ]
+    out = []
+    for _ in range(n):
+        post = posts[0] if rng.random() < 0.4 else rng.choice(posts)
+        ops = rng.choice(follow)
+        if cd["mixed"]:
+            ops = [o for o in ops if o[0] not in ("copy", "deep", "pickle")] or [("hash",)]
+        out.append(mk_P(cd, start, post, ops))
+    return out
 
 
 def _fixed_histories(cd, start, rng):
@@ -1034,6 +1198,7 @@ def gen_B(tier, rng):
         for ops in picks:
             cases.append(mk_H(cd, start, ops))
         cases.append(mk_H(cd, start, rnd))
+        cases.extend(_post_cases(cd, start, rng, 1 if tier == "quick" else 2))
     return cases
 
 
@@ -1200,6 +1365,8 @@ def extra(tier, seed):
            for k, msg in _base_errors[:5]]
     cov_tie = script_tie()
     r = KEY_TESTS_READ[0]
+    cov_tie["init_tail_tie"] = ("unavailable (shape not recognised)" if not INIT_TAIL_READ[0]
+                                else " -> ".join(INIT_TAIL_READ[0]))
     cov_tie["key_presence_tie"] = ("unavailable (a site has an unrecognised shape: %r)" % (r,)
                                    if r is None or None in r else
                                    "norm=%s eq=%s hash=%s" % tuple(r))
@@ -1219,6 +1386,8 @@ def rerun(inp):
         cd["fields"] = [tuple(f) for f in cd["fields"]]
         if inp["t"] == "M":
             return mk_M(cd, [list(v) for v in inp["vecs"]])
+        if inp["t"] == "P":
+            return mk_P(cd, list(inp["start"]), [tuple(o) for o in inp["post"]], [tuple(o) for o in inp["ops"]])
         return mk_H(cd, list(inp["start"]), [tuple(o) for o in inp["ops"]])
     finally:
         _cleanup(lc_before)
@@ -1315,7 +1484,7 @@ def distribution(cases):
             cf = dict(zip(A_KEYS, c.inp["cf"]))
             base[cf["base"]] += 1
             api[cf["api"]] += 1
-    ops = Counter(o[0] for c in cases if c.inp["t"] == "H" for o in c.inp["ops"])
-    nf = Counter(len(c.inp["cd"]["fields"]) for c in cases if c.inp["t"] in "MH")
+    ops = Counter(o[0] for c in cases if c.inp["t"] in "HP" for o in c.inp["ops"])
+    nf = Counter(len(c.inp["cd"]["fields"]) for c in cases if c.inp["t"] in "MHP")
     return {"case_kinds": dict(kinds), "A_outcomes": dict(out), "A_bases": dict(base), "A_api": dict(api),
             "H_operations": dict(ops), "B_fields_per_class": {str(k): v for k, v in nf.items()}}
